@@ -16,6 +16,10 @@ pub struct Case {
     pub reuse: bool,
     pub n: usize,
     pub threads: usize,
+    /// the identical payload carries a 3 000-byte claim and a 1 500-byte footer (a nonce derived from a bounded buffer of
+    /// payload || footer || randomness loses its randomness once the other pieces fill the buffer)
+    #[serde(default)]
+    pub big: bool,
 }
 
 fn fixed_claims() -> Vec<ClaimOp> {
@@ -27,10 +31,17 @@ fn fixed_claims() -> Vec<ClaimOp> {
 }
 
 fn build_many(c: &Case, key: &KeyMat, n: usize) -> Vec<Out<String>> {
-    let footer = Some("ftr");
+    let big_footer = "F".repeat(1500);
+    let footer = if c.big { Some(big_footer.as_str()) } else { Some("ftr") };
     let ia = if c.p.has_assertion() { Some("ia") } else { None };
     match c.layer {
-        Layer::Generic => generic_seal_many(c.p, key, &fixed_claims(), footer, ia, n, c.reuse),
+        Layer::Generic => {
+            let mut claims = fixed_claims();
+            if c.big {
+                claims.push(ClaimOp::Set(Claim::Custom("blob".into(), json!("b".repeat(3000)))));
+            }
+            generic_seal_many(c.p, key, &claims, footer, ia, n, c.reuse)
+        }
         _ => {
             // exp/iat/nbf pinned so that the payload is identical from build to build
             let mut pre = vec![
@@ -38,8 +49,11 @@ fn build_many(c: &Case, key: &KeyMat, n: usize) -> Vec<Out<String>> {
                 BOp::Set(Claim::Iat("2020-01-01T00:00:00+00:00".into())),
                 BOp::Set(Claim::Nbf("2020-01-01T00:00:00+00:00".into())),
                 BOp::Set(Claim::Custom("data".into(), json!("identical payload"))),
-                BOp::Footer("ftr".into()),
+                BOp::Footer(footer.unwrap_or("ftr").to_string()),
             ];
+            if c.big {
+                pre.push(BOp::Set(Claim::Custom("blob".into(), json!("b".repeat(3000)))));
+            }
             if c.p.has_assertion() {
                 pre.push(BOp::Assertion("ia".into()));
             }
@@ -91,7 +105,7 @@ fn register_nonces(p: P, tag: &str, nonces: &[Vec<u8>], r: &mut Report) {
 
 pub fn run_case(c: &Case, r: &mut Report) {
     let key = KeyMat::sym(*b"wubbalubbadubdubwubbalubbadubdub");
-    let tag = format!("{}/{}/{}", c.p.name(), c.layer.name(), if c.reuse { "one-builder" } else { "fresh-builder" });
+    let tag = format!("{}/{}/{}{}", c.p.name(), c.layer.name(), if c.reuse { "one-builder" } else { "fresh-builder" }, if c.big { "/large-payload" } else { "" });
     let per = c.n / c.threads.max(1);
     let mut tokens: Vec<String> = Vec::with_capacity(c.n);
     let mut failed = 0usize;
@@ -206,11 +220,12 @@ pub fn run_case(c: &Case, r: &mut Report) {
     // sample 64 tokens spread over the history (and the last one) and open them
     if c.threads == 1 {
         let ia = if c.p.has_assertion() { Some("ia") } else { None };
+        let big_footer = "F".repeat(1500);
         let step = (n / 64).max(1);
         let mut bad = 0usize;
         let mut first_bad = String::new();
         for i in (0..n).step_by(step).chain(std::iter::once(n - 1)) {
-            let o = open_at(c.layer, c.p, &key, &tokens[i], Some("ftr"), ia).0;
+            let o = open_at(c.layer, c.p, &key, &tokens[i], Some(if c.big { big_footer.as_str() } else { "ftr" }), ia).0;
             let ok = match &o {
                 Out::Ok(s) => s.contains("identical payload"),
                 _ => false,
@@ -251,7 +266,7 @@ pub fn rng_fault(r: &mut Report) {
     let key = KeyMat::sym(*b"wubbalubbadubdubwubbalubbadubdub");
     for &p in &LOCALS {
         for layer in [Layer::Generic, Layer::Batteries] {
-            let c = Case { p, layer, reuse: false, n: 8, threads: 1 };
+            let c = Case { p, layer, reuse: false, n: 8, threads: 1, big: false };
             let tag = format!("{}/{}", p.name(), layer.name());
             rusty_paseto::verif::set_rng_fault(true);
             let during = build_many(&c, &key, 8);
@@ -326,7 +341,7 @@ pub fn pause_histories(tier: &str, r: &mut Report) {
                     hs.push(s.spawn(move || {
                         let mut r = Report::new();
                         let tag = format!("{}/{}", p.name(), layer.name());
-                        let c = Case { p, layer, reuse: false, n: 6, threads: 1 };
+                        let c = Case { p, layer, reuse: false, n: 6, threads: 1, big: false };
                         let c_reuse = Case { reuse: true, ..c.clone() };
                         let mut kept = if layer == Layer::Batteries { Some(batteries_session(p, &key)) } else { None };
                         if let Some(k) = kept.as_mut() {
@@ -406,20 +421,23 @@ pub fn cases(tier: &str) -> Vec<Case> {
     for &p in &LOCALS {
         for layer in [Layer::Generic, Layer::Batteries] {
             for reuse in [false, true] {
-                v.push(Case { p, layer, reuse, n: 4096, threads: 1 });
+                v.push(Case { p, layer, reuse, n: 4096, threads: 1, big: false });
             }
         }
+        // identical LARGE payloads (3 000-byte claim, 1 500-byte footer)
+        v.push(Case { p, layer: Layer::Generic, reuse: false, n: 1024, threads: 1, big: true });
+        v.push(Case { p, layer: Layer::Batteries, reuse: true, n: 1024, threads: 1, big: true });
         // one builder object used 70 000 times: beyond any 16-bit call counter
-        v.push(Case { p, layer: Layer::Generic, reuse: true, n: 70_000, threads: 1 });
-        v.push(Case { p, layer: Layer::Batteries, reuse: true, n: 70_000, threads: 1 });
+        v.push(Case { p, layer: Layer::Generic, reuse: true, n: 70_000, threads: 1, big: false });
+        v.push(Case { p, layer: Layer::Batteries, reuse: true, n: 70_000, threads: 1, big: false });
         // several threads minting at once (each its own builders): per-thread nonce sources must not run in lock-step
-        v.push(Case { p, layer: Layer::Generic, reuse: false, n: 8192, threads: 8 });
-        v.push(Case { p, layer: Layer::Batteries, reuse: true, n: 8192, threads: 8 });
+        v.push(Case { p, layer: Layer::Generic, reuse: false, n: 8192, threads: 8, big: false });
+        v.push(Case { p, layer: Layer::Batteries, reuse: true, n: 8192, threads: 8, big: false });
         if thorough {
-            v.push(Case { p, layer: Layer::Generic, reuse: false, n: 102_400, threads: 16 });
-            v.push(Case { p, layer: Layer::Batteries, reuse: true, n: 102_400, threads: 16 });
+            v.push(Case { p, layer: Layer::Generic, reuse: false, n: 102_400, threads: 16, big: false });
+            v.push(Case { p, layer: Layer::Batteries, reuse: true, n: 102_400, threads: 16, big: false });
             // 75 000 builds per builder object: beyond any 16-bit call counter
-            v.push(Case { p, layer: Layer::Generic, reuse: true, n: 1_200_000, threads: 16 });
+            v.push(Case { p, layer: Layer::Generic, reuse: true, n: 1_200_000, threads: 16, big: false });
         }
     }
     v
@@ -453,4 +471,4 @@ pub fn replay(case: &Value) -> Report {
     r
 }
 
-pub const RULE: &str = "one case = a history of N builds (quick N=4096 on one thread, N=70000 from ONE builder object and N=8192 minted concurrently by 8 threads; thorough additionally N=102400 and N=1200000 from 16 threads, i.e. 75000 builds per builder object) under one key with IDENTICAL claims, footer and assertion, for v1-v4 local x {GenericBuilder, PasetoBuilder with exp/iat/nbf pinned} x {fresh builder per build, one builder reused}; the nonce field of every token is extracted (32 bytes, v2: 24). Monitors: pairwise-distinct nonces and tokens within a history AND across all histories of the process (about 190 000 nonces per protocol in the quick tier, millions in the thorough tier: a nonce source with a 32-bit state space collides by the birthday bound), per-bit one-frequency within N/2 +- 5.3*sqrt(N), no constant byte position; the whole run is executed in two separate processes and the first 64 nonces of every history are compared across processes (fixed-seed PRNG). Idle-pause histories: three bursts of builds on ONE thread (fresh builders, a reused one and a batteries-included builder kept across the pauses) separated by 1.3 s (thorough also 3.1, 11 and 31 s) of idle time: no nonce may recur across a pause. Fault injection through the hook verif::set_rng_fault: while the system RNG fails, 16 builds under identical inputs must either fail or carry pairwise distinct nonces (a fallback to a stale/default/input-derived nonce repeats), and builds must succeed again with distinct tokens once the fault is cleared. distinct_nontrivial = distinct (version, layer, builder mode, N, threads) histories that built >= 1000 tokens";
+pub const RULE: &str = "one case = a history of N builds (quick N=4096 on one thread, N=1024 with a LARGE identical payload (3 kB claim, 1.5 kB footer), N=70000 from ONE builder object and N=8192 minted concurrently by 8 threads; thorough additionally N=102400 and N=1200000 from 16 threads, i.e. 75000 builds per builder object) under one key with IDENTICAL claims, footer and assertion, for v1-v4 local x {GenericBuilder, PasetoBuilder with exp/iat/nbf pinned} x {fresh builder per build, one builder reused}; the nonce field of every token is extracted (32 bytes, v2: 24). Monitors: pairwise-distinct nonces and tokens within a history AND across all histories of the process (about 190 000 nonces per protocol in the quick tier, millions in the thorough tier: a nonce source with a 32-bit state space collides by the birthday bound), per-bit one-frequency within N/2 +- 5.3*sqrt(N), no constant byte position; the whole run is executed in two separate processes and the first 64 nonces of every history are compared across processes (fixed-seed PRNG). Idle-pause histories: three bursts of builds on ONE thread (fresh builders, a reused one and a batteries-included builder kept across the pauses) separated by 1.3 s (thorough also 3.1, 11 and 31 s) of idle time: no nonce may recur across a pause. Fault injection through the hook verif::set_rng_fault: while the system RNG fails, 16 builds under identical inputs must either fail or carry pairwise distinct nonces (a fallback to a stale/default/input-derived nonce repeats), and builds must succeed again with distinct tokens once the fault is cleared. distinct_nontrivial = distinct (version, layer, builder mode, N, threads) histories that built >= 1000 tokens";
